@@ -300,7 +300,7 @@ theorem Agree.withUnenc {C : Codec σ} {l : L2 σ} {d : Dec σ} (ha : Agree C l 
   exact ⟨a1, a2, a3, a4, a5, a6, a7, a8⟩
 
 /-- One operation of the LZMA2 encoder. -/
-theorem code_spec {C : Codec σ} (hC : C.Sound) (l : L2 σ) (d : Dec σ) (ha : Agree C l d) (inp : Bytes) (a : Action) (tail : Bytes) :
+theorem l2_code_spec {C : Codec σ} (hC : C.Sound) (l : L2 σ) (d : Dec σ) (ha : Agree C l d) (inp : Bytes) (a : Action) (tail : Bytes) :
     (l.code C inp a).1.hist ++ (l.code C inp a).1.unenc = l.hist ++ l.unenc ++ inp ∧
     (l.code C inp a).1.opt = l.opt ∧
     (a = .run → (l.code C inp a).2.2 = .ok) ∧
